@@ -364,6 +364,7 @@ def build_and_link(ctx, case, tag, only=None):
     tools.fresh(os.path.join(d, "l.out"))
     tools.fresh(os.path.join(d, "w.out"))
     ld = w = None
+    ctx.note("links:" + tag.split("-")[-1].rstrip("0123456789") if isinstance(tag, str) and "-" in tag else "links:case")
     if only in (None, "ld"):
         ld = tools.link("ld", args + ["-o", "l.out"], cwd=d, timeout=60)
     if only in (None, "wild"):
@@ -479,7 +480,10 @@ def examine(ctx, case_id, sec, desc, pat, tag):
     if desc["filepat"] != "*":
         # is the file pattern or the section pattern responsible?
         iso2 = isolate(ctx, sec["name"], sec["file"], "*", pat, keep, tag + "-anyfile")
-        if classify_diff(iso2, keep) is None and iso2["ld"] == iso2["model"]:
+        if classify_diff(iso2, keep) is not None:
+            # the section pattern fails on its own: analyse it without the file pattern
+            return examine(ctx, case_id, sec, dict(desc, filepat="*"), pat, tag + "-nofp")
+        if iso2["ld"] == iso2["model"]:
             fp = desc["filepat"]
             fcls = ("exact" if not any(c in fp for c in "*?[") else "wildcard") + \
                    (":input-in-subdirectory" if "/" in sec["file"] else "") + (":pattern-has-directory" if "/" in fp else "")
